@@ -826,6 +826,105 @@ def value_facts():
 
 
 # ------------------------------------------------------------------------------------------------
+# BaseSliver._dict_diff / _dict_common: what decides whether a child is added, removed or common
+#
+# The symbolic evaluator above treats the two helpers as primitives; what they do is established here by running them
+# (behavioural probe, so a comprehension, a loop with `if k in dict_b`, `dict_a.keys() & dict_b.keys()` ... are all the same):
+# the two function definitions are compiled on their own (they are static and use builtins only) and called on every pair of
+# small dictionaries whose values are opaque objects that record any look at them (==, !=, hash, truth value, any attribute).
+# key-only  <=>  for every pair the result is `{k: a[k] | k in a, k not in b}` / `{k: b[k] | k in b, k not in a}` /
+# `{k: a[k] | k in a and in b}` (the very objects of the named side) and no value was looked at.
+
+
+class _Opaque:
+    touched = []
+
+    def __init__(self, tag):
+        object.__setattr__(self, "_tag", tag)
+
+    def _t(self, what):
+        _Opaque.touched.append((object.__getattribute__(self, "_tag"), what))
+
+    def __eq__(self, other):
+        self._t("==")
+        return False
+
+    def __ne__(self, other):
+        self._t("!=")
+        return True
+
+    def __hash__(self):
+        self._t("hash")
+        return 0
+
+    def __bool__(self):
+        self._t("bool")
+        return True
+
+    def __getattr__(self, name):
+        self._t("." + name)
+        raise AttributeError(name)
+
+
+def dict_helper_facts():
+    tree, _ = parse(F_BASE)
+    cls = find_class(tree, "BaseSliver")
+    fns = {}
+    for nm in ("_dict_diff", "_dict_common"):
+        fn = find_func(cls, nm)
+        if not any(isinstance(d, ast.Name) and d.id == "staticmethod" for d in fn.decorator_list):
+            bad("BaseSliver.%s is not a staticmethod" % nm)
+        pos = [a.arg for a in fn.args.args]
+        if len(pos) - len(fn.args.defaults) != 2 or fn.args.vararg or fn.args.kwarg or fn.args.kwonlyargs:
+            bad("BaseSliver.%s does not take exactly two required dictionaries" % nm)
+        import copy as _copy
+        args = _copy.deepcopy(fn.args)
+        for a in args.posonlyargs + args.args + args.kwonlyargs + [x for x in (args.vararg, args.kwarg) if x is not None]:
+            a.annotation = None               # type hints are evaluated when the def runs; their names are not available here
+        clone = ast.FunctionDef(name=nm, args=args, body=fn.body, decorator_list=[], returns=None, type_comment=None)
+        mod = ast.fix_missing_locations(ast.Module(body=[clone], type_ignores=[]))
+        ns = {}
+        try:
+            exec(compile(mod, "<%s>" % nm, "exec"), ns)
+        except Exception as e:
+            bad("cannot compile BaseSliver.%s on its own: %r" % (nm, e))
+        fns[nm] = ns[nm]
+    keys = ("a", "b", "c")
+    subsets = [tuple(k for k, on in zip(keys, m) if on) for m in itertools.product((False, True), repeat=3)]
+    why = None
+    for ka in subsets:
+        for kb in subsets:
+            da = {k: _Opaque("A" + k) for k in ka}
+            db = {k: _Opaque("B" + k) for k in kb}
+            _Opaque.touched = []
+            try:
+                dd = fns["_dict_diff"](dict(da), dict(db))
+                dc = fns["_dict_common"](dict(da), dict(db))
+                added, removed = dd["added"], dd["removed"]
+                got = []
+                for d in (added, removed, dc):
+                    got.append({k: id(v) for k, v in d.items()})
+            except Exception as e:
+                bad("BaseSliver._dict_diff/_dict_common on opaque values: %r" % (e,))
+            want = [{k: id(db[k]) for k in kb if k not in ka}, {k: id(da[k]) for k in ka if k not in kb},
+                    {k: id(da[k]) for k in ka if k in kb}]
+            if _Opaque.touched:
+                why = why or "the helpers look at the slivers stored under the keys (%s)" % sorted(set(w for _, w in _Opaque.touched))
+            if got[2] != want[2]:
+                if set(got[2]) <= set(want[2]) and all(got[2][k] == want[2][k] for k in got[2]):
+                    why = why or "_dict_common leaves out keys that are on both sides"
+                else:
+                    bad("_dict_common(%s, %s) returns %s: not expressible in the table" % (ka, kb, sorted(got[2])))
+            if got[0] != want[0] or got[1] != want[1]:
+                if set(got[0]) <= set(want[0]) and set(got[1]) <= set(want[1]) and all(got[0][k] == want[0][k] for k in got[0]) \
+                        and all(got[1][k] == want[1][k] for k in got[1]):
+                    why = why or "_dict_diff leaves out keys that are on one side only"
+                else:
+                    bad("_dict_diff(%s, %s) returns added %s removed %s: not expressible in the table" % (ka, kb, sorted(got[0]), sorted(got[1])))
+    return {"keyOnly": why is None, "why": why}
+
+
+# ------------------------------------------------------------------------------------------------
 # prop_diff
 
 
@@ -1168,6 +1267,7 @@ def generate():
         members, fields = tdiff_facts()
         props = extract_props(fields)
         vals = value_facts()
+        dicts = dict_helper_facts()
         CLASS_GUARD.clear()
         methods = {w: extract_method(w, fields) for w in ("node", "svc", "iface")}
     except ExtractionError:
@@ -1181,6 +1281,7 @@ def generate():
     body += "    flagVal := %s,\n" % lean_list(["(.%s, %d)" % (FLAG_MEMBERS[k], members[k]) for k in FLAG_MEMBERS])
     body += "    infoPresence := %s,\n" % str(presence).lower()
     body += "    classGuard := %s,\n" % str(class_guard).lower()
+    body += "    dictKeyOnly := %s,\n" % str(dicts["keyOnly"]).lower()
     opt = lambda x: "none" if x is None else "some %d" % x
     body += ("    vals := { labelsMissing := %s, capsMissing := %s, notOtherIsNone := %s, udSameClass := %s, udCanonicalText := %s },\n" % (
         opt(vals["labelsMissing"]), opt(vals["capsMissing"]), str(vals["notOtherIsNone"]).lower(),
@@ -1189,7 +1290,7 @@ def generate():
     body += "    svc :=\n      %s,\n" % l_method(methods["svc"])
     body += "    iface :=\n      %s }\n" % l_method(methods["iface"])
     changed = emit("DiffCfg", body, header="import FimVerif.Model.DiffCfg\n")
-    return {"changed": changed, "props": props, "values": vals, "flag_values": {k: members[k] for k in FLAG_MEMBERS},
+    return {"changed": changed, "props": props, "values": vals, "dict_helpers": dicts, "flag_values": {k: members[k] for k in FLAG_MEMBERS},
             "info": {c: {k: v for k, v in f.items()} for c, f in INFO_FACTS.items()},
             "descend": {w: {lv["coll"]: lv["descend"] for lv in m["levels"]} for w, m in methods.items()},
             "cond": {w: [list(p) for p in m["cond"]] for w, m in methods.items()}}
